@@ -538,7 +538,7 @@ static const char *check_seq_history(int kind, hop_t *all, int n, hop_t *fin) {
 static void stress_case(long caseno) {
     rng_seed(&R, VF.seed, (uint64_t)caseno);
     S_KIND = (int)(caseno % NKINDS); S_NT = 4 + (int)rng_below(&R, 5); S_OPS = 10 + (int)rng_below(&R, (uint32_t)(400 / S_NT - 9)); if (S_OPS > SMAXOPS) S_OPS = SMAXOPS; S_CASE = caseno;
-    if (is_map(S_KIND) && S_NT * S_OPS > 110) S_OPS = 110 / S_NT;
+    if (is_map(S_KIND) && S_NT * S_OPS > 56) S_OPS = 56 / S_NT;
     vf_case_begin(caseno, "stress: %s threads=%d ops/thread=%d", KNAME[S_KIND], S_NT, S_OPS);
     make(&CX, S_KIND); STAMP = 0;
     vf_lock_register(CX.mutex);
